@@ -29,11 +29,11 @@ MANIFEST = {
 SESSION_NOISE = True      # every shard starts after unrelated session activity (harness.session_noise)
 BUDGET_S = {'quick': 75, 'thorough': 480}
 RULE = ('grid variant x imf option set (5, one with an energy threshold, one with a tight iteration budget) x interpolation (2) x extrema option set (4) x delivery route (keyword dicts, '
-        '**SiftConfig, get_func partial, **SiftConfig read back from YAML) x nprocesses (1,2,3) x 3 signals; quick = seeded sample of the grid with every '
+        '**SiftConfig, get_func partial, **SiftConfig read back from YAML, **SiftConfig started empty and filled by key paths) x nprocesses (1,2,3) x 3 signals; quick = seeded sample of the grid with every '
         '(variant, route) cell forced, thorough = whole grid; non-trivial = the call produced stage events of all three '
         'stages; distinct by grid cell')
 EXHAUSTIVE = {'quick': False, 'thorough': True}
-EXHAUSTIVE_SCOPE = {'thorough': 'the full grid named in rule (3840 cells incl. the two stage-level helpers) x 3 signals'}
+EXHAUSTIVE_SCOPE = {'thorough': 'the full grid named in rule (4760 cells incl. the two stage-level helpers) x 3 signals'}
 ASSUMPTIONS = ['extrema events issued outside a traced envelope call (amplitude estimation inside the instantaneous-frequency mask estimate) are not sift stages and are ignored']
 
 IMF = [{'stop_method': 'rilling', 'rilling_thresh': (0.1, 0.8, 0.1), 'env_step_size': .5},
@@ -49,7 +49,8 @@ EXT = [{'pad_width': 3}, {'pad_width': 1, 'parabolic_extrema': True},
        {'pad_width': 2, 'mag_pad_opts': {'mode': 'mean'}}]      # a complete np.pad keyword set that has no stat_length
 VARIANTS = ['sift', 'mask_sift:zc', 'mask_sift:if', 'mask_sift:float', 'mask_sift:list', 'ensemble_sift',
             'complete_ensemble_sift', 'sift_second_layer', 'mask_sift_second_layer', 'get_next_imf_mask', 'get_mask_freqs']
-ROUTES = ['kw', 'cfg', 'func', 'yaml']     # yaml: the configuration object written to YAML text, read back, then unpacked
+ROUTES = ['kw', 'cfg', 'func', 'yaml', 'mincfg']     # yaml: the configuration object written to YAML text, read back, then unpacked;
+# mincfg: a configuration object started with empty option groups and filled through 'group/option' keys only
 NPROC = [1, 2, 3]
 
 
@@ -156,7 +157,7 @@ def run_cell(ctx, tr, cell, sigk):
         cfg = None
     else:
         cfgname = 'mask_sift' if name == 'mask_sift_second_layer' else ('sift' if name == 'sift_second_layer' else name)
-        cfg = S.get_config(cfgname)
+        cfg = S.get_config(cfgname) if route != 'mincfg' else S.SiftConfig(cfgname, imf_opts={}, envelope_opts={}, extrema_opts={})
         for k, val in I.items():
             cfg['imf_opts/' + k] = val
         for k, val in E.items():
@@ -166,6 +167,8 @@ def run_cell(ctx, tr, cell, sigk):
         wantI, wantE, wantX = dict(cfg['imf_opts']), dict(cfg['envelope_opts']), dict(cfg['extrema_opts'])
         if 'mag_pad_opts' in X:
             wantX['mag_pad_opts'] = dict(X['mag_pad_opts'])
+        if route == 'mincfg':
+            wantI, wantE, wantX = dict(I), dict(E), {k: (dict(v) if isinstance(v, dict) else v) for k, v in X.items()}
         if route == 'yaml':
             cfg = S.SiftConfig.from_yaml_stream(cfg.to_yaml_text())
 
@@ -206,7 +209,7 @@ def run_cell(ctx, tr, cell, sigk):
                 else:
                     for k, val in extra.items():
                         cfg[k] = val
-                    if route in ('cfg', 'yaml'):
+                    if route in ('cfg', 'yaml', 'mincfg'):
                         ret = func(x, **cfg)
                     else:
                         ret = cfg.get_func()(x)
